@@ -269,6 +269,13 @@ def _check_make_args_unique(run: Run, ctx, m) -> None:
     # the renaming stack is the attribute that is both pushed to and popped from
     cands = [v for v in by_stack.values() if any(o.kind == "pop" for o in v)]
     ops = cands[0] if len(cands) == 1 else []
+    if not stack_ops:
+        # nothing is appended to / popped from an attribute of the transformer: when it also owns no list at all, the
+        # renamings are kept in some other structure (linked frames, re-bound tuples) that this rule cannot read
+        init_ = vl.cls.methods.get("__init__") if vl.cls is not None else None
+        has_list = init_ is not None and any(isinstance(n_, ast.Assign) and isinstance(n_.targets[0], ast.Attribute) and isinstance(n_.value, (ast.List, ast.Dict, ast.Set)) or (isinstance(n_, ast.Assign) and isinstance(n_.value, ast.Call) and isinstance(n_.value.func, ast.Name) and n_.value.func.id in ("list", "dict", "set", "deque")) for n_ in own_nodes(init_))
+        if not has_list:
+            raise AnalysisError("replace_args keeps its renamings in something other than a list / dict / set it owns (linked frames, re-bound tuples, ..): the scoping discipline of visit_Lambda cannot be read")
     pushes = [o for o in ops if o.kind == "push"]
     pops = [o for o in ops if o.kind == "pop"]
     gvs = [c for c in calls_in(vl) if isinstance(c.func, ast.Attribute) and c.func.attr == "generic_visit"]
@@ -371,6 +378,9 @@ def _check_beta(run: Run, ctx0, m, cls, vc: FuncInfo) -> None:
     # the shape rules (R3a-R3c) read the reduction with "parameters renamed to fresh names" seen through
     ctx = TermCtx(m, opaque=set(ctx0.opaque) - {"make_args_unique"}, identity=set(ctx0.identity) | {"make_args_unique"}, max_depth=ctx0.max_depth)
     # the reduction may live in visit_Call or in a private helper it hands the call node to
+    from ..lib import view as _view_b
+
+    vc = _view_b(m, vc, keep=("select_method_call_on_first",))  # a dispatch by kind (getattr(self, "_visit_Call_" + kind)) read as its if-chain
     vc0 = vc
     vc, inv = site_owner(m, ctx, vc0, "stack_frame")
     nodep = ("param", vc0.pos_params[1])
